@@ -349,7 +349,9 @@ Wipe == /\ bud.wipe > 0 /\ Calm /\ EnvOK
         /\ bud' = [bud EXCEPT !.wipe = @ - 1] /\ actor' = 0
         /\ UNCHANGED <<clock, file, kvok, cfg, L>>
 
-SetKV(i, b) == /\ bud.kv > 0 /\ Calm /\ EnvOK /\ kvok[i] # b
+\* the store's attitude towards a client can change at ANY moment, in particular between two consecutive
+\* calls of the same burst (e.g. after verifyTokens succeeded and before the JOINING -> ACTIVE write)
+SetKV(i, b) == /\ bud.kv > 0 /\ EnvOK /\ kvok[i] # b
                /\ kvok' = [kvok EXCEPT ![i] = b]
                /\ okSince' = [okSince EXCEPT ![i] = clock]
                /\ bud' = [bud EXCEPT !.kv = @ - 1] /\ actor' = 0
@@ -391,12 +393,14 @@ CrashMid(i, F) ==
     /\ bud' = [bud EXCEPT !.crash = @ - 1] /\ actor' = 0
     /\ UNCHANGED <<ring, rnil, clock, kvok, cfg, okSince>>
 
+\* (the cheap guards in front of the quantifiers only spare TLC the enumeration of token choices)
 ClassicStep(i) ==
-    \/ \E X \in InitRingChoices(i) : InitRingT(i, X)
-    \/ \E T \in Choices(NumTokens - Card(ring[i].toks), AllToks) : AutoJoinT(i, T)
+    \/ (L[i].phase = "init" /\ Classic(i) /\ \E X \in InitRingChoices(i) : InitRingT(i, X))
+    \/ (L[i].phase = "run" /\ Classic(i) /\ Due(L[i].joinAt) /\ L[i].st = "PENDING" /\ kvok[i]
+           /\ \E T \in Choices(NumTokens - Card(ring[i].toks), AllToks) : AutoJoinT(i, T))
     \/ AutoJoinSkip(i) \/ AutoJoinFail(i)
-    \/ \E T \in ObserveChoices(i) : ObserveT(i, T)
+    \/ (L[i].phase = "run" /\ Classic(i) /\ Due(L[i].obsAt) /\ \E T \in ObserveChoices(i) : ObserveT(i, T))
     \/ Activate(i) \/ Heartbeat(i)
-    \/ DoChangeState(i) \/ DoReadOnly(i) \/ \E j \in Inst : DoClaim(i, j)
+    \/ DoChangeState(i) \/ DoReadOnly(i) \/ (L[i].pc = "claim" /\ \E j \in Inst : DoClaim(i, j))
     \/ StopLeaving(i)
 =============================================================================
